@@ -363,3 +363,109 @@ mutual
 end
 
 end Naga.CFlow
+
+namespace Naga.CFlow
+
+/-! ## Emission, HLSL / GLSL scheme: one-body switches as `do { } while(false)` and `continue` forwarding
+
+  hlsl/internal/codegen/statements.go  writeSwitchStatement, writeSwitchCase, writeLoopStatement, continue_forward.go
+  glsl/internal/codegen/statements.go  writeSwitch, writeSwitchAsDoWhile, writeLoop, continue_forward.go
+
+`inLoop`: the statement is (transitively) inside a loop of the same function body — the writers' nesting stack is not
+empty.  `fwd`: the innermost enclosing construct on that stack is a switch that takes part in the forwarding, so a
+`continue` is written `should_continue = true; break;`.  The forwarding flag is the innermost flag in scope. -/
+
+inductive Mode where
+  | hlsl | glsl
+  deriving DecidableEq, Repr
+
+/-- every case but the last is an empty fall-through: the switch has a single body -/
+def oneBody : Cs → Bool
+  | .nil => false
+  | .cons _ _ _ .nil => true
+  | .cons _ body ft rest => ft && body.isNil && oneBody rest
+
+def lastBody : Cs → B
+  | .nil => .nil
+  | .cons _ body _ .nil => body
+  | .cons _ _ _ rest => lastBody rest
+
+/-- does this switch take part in the forwarding?  HLSL: every switch inside a loop (FXC rejects `continue` in a
+switch); GLSL: the do-while form inside a loop, and a regular switch only when it is nested in a forwarding one. -/
+def participates (m : Mode) (inLoop fwd one : Bool) : Bool :=
+  match m with
+  | .hlsl => inLoop
+  | .glsl => if one then inLoop else fwd
+
+/-- `if (should_continue) { continue; }` after the outermost forwarding switch, `… { break; }` after a nested one -/
+def afterSwitch (fwd : Bool) : CB :=
+  .cons (.ite .flag (.cons (if fwd then .brk else .cont) .nil) .nil) .nil
+
+mutual
+  def emitSF (m : Mode) (inLoop fwd : Bool) : S → CB
+    | .act a => .cons (.act a) .nil
+    | .block b => .cons (.block (emitBF m inLoop fwd b)) .nil      -- (these two writers print `{ }` even for an empty Block)
+    | .ite c t e => .cons (.ite (.cond c) (emitBF m inLoop fwd t) (emitBF m inLoop fwd e)) .nil
+    | .loop body cont bi =>
+      if !cont.isNil || bi.isSome then
+        .cons (.withFlag true (.cons (.whileTrue
+          (.cons (.ite .notFlag (CB.append (emitBF m true false cont) (breakIfC bi)) .nil)
+            (.cons (.setFlag false) (emitBF m true false body)))) .nil)) .nil
+      else .cons (.whileTrue (emitBF m true false body)) .nil
+    | .switch sel cs =>
+      let one := oneBody cs
+      let part := participates m inLoop fwd one
+      let fwd' := part || fwd
+      let core : C := if one then .doOnce (emitLastF m inLoop fwd' cs) else .switch sel (emitCsF m inLoop fwd' cs)
+      let after : CB := if part && canContCs cs then afterSwitch fwd else .nil
+      if part && !fwd then .cons (.withFlag false (.cons core after)) .nil
+      else .cons core after
+    | .brk => .cons .brk .nil
+    | .cont => if fwd then .cons (.setFlag true) (.cons .brk .nil) else .cons .cont .nil
+    | .ret => .cons .ret .nil
+  def emitBF (m : Mode) (inLoop fwd : Bool) : B → CB
+    | .nil => .nil
+    | .cons s rest => CB.append (emitSF m inLoop fwd s) (emitBF m inLoop fwd rest)
+  /-- the body of the last case (the single body of a one-body switch) -/
+  def emitLastF (m : Mode) (inLoop fwd : Bool) : Cs → CB
+    | .nil => .nil
+    | .cons _ body _ .nil => emitBF m inLoop fwd body
+    | .cons _ _ _ rest => emitLastF m inLoop fwd rest
+  def emitCsF (m : Mode) (inLoop fwd : Bool) : Cs → CI
+    | .nil => .nil
+    | .cons v body ft rest =>
+      if ft && body.isNil then .label v (emitCsF m inLoop fwd rest)
+      else .label v (.stmt (.block (if ft || endsWithTerm body then emitBF m inLoop fwd body
+                                     else CB.append (emitBF m inLoop fwd body) (.cons .brk .nil))) (emitCsF m inLoop fwd rest))
+end
+
+/-- a default label is present (WGSL requires exactly one) -/
+def hasDefault : Cs → Bool
+  | .nil => false
+  | .cons v _ _ rest => v.isNone || hasDefault rest
+
+/-- the last case does not fall through (there is nothing to fall into) -/
+def lastNoFt : Cs → Bool
+  | .nil => true
+  | .cons _ _ ft .nil => !ft
+  | .cons _ _ _ rest => lastNoFt rest
+
+mutual
+  /-- well-formedness for the forwarding scheme: as `wfS`, plus a default clause in every switch and no fall-through
+  out of the last case; `continue` only inside a loop. -/
+  def wfSF (inLoop : Bool) : S → Bool
+    | .block b => wfBF inLoop b
+    | .ite _ t e => wfBF inLoop t && wfBF inLoop e
+    | .loop body cont _ => wfBF true body && wfBF true cont && !canBrkB cont && !canContB cont
+    | .switch _ cs => wfCsF inLoop cs && hasDefault cs && lastNoFt cs
+    | .cont => inLoop
+    | _ => true
+  def wfBF (inLoop : Bool) : B → Bool
+    | .nil => true
+    | .cons s rest => wfSF inLoop s && wfBF inLoop rest
+  def wfCsF (inLoop : Bool) : Cs → Bool
+    | .nil => true
+    | .cons _ body ft rest => wfBF inLoop body && (!ft || body.isNil) && wfCsF inLoop rest
+end
+
+end Naga.CFlow
